@@ -114,15 +114,15 @@ Definition do_redirect (o : nat) (ts : list token) : pres (list token) :=
   | [] => POk []
   end.
 
+Definition bind {A B} (x : pres A) (k : A -> pres B) : pres B :=
+  match x with POk a => k a | PErr c p i => PErr c p i | PFuel => PFuel end.
+
 (* for p.peekRedir() { p.doRedirect(s) } *)
 Fixpoint redirs (fuel : nat) (o : nat) (ts : list token) : pres (list token) :=
   match fuel with
   | O => PFuel
   | S f => if peek_redir ts
-           then match do_redirect o ts with
-                | POk r => redirs f o r
-                | e => e
-                end
+           then bind (do_redirect o ts) (fun r => redirs f o r)
            else POk ts
   end.
 
@@ -160,10 +160,7 @@ Fixpoint call_loop (posix : bool) (fuel : nat) (o : nat) (q : quote) (first : op
                | TLparen => unexpected_in_call posix o first ts
                | TRparen => match q with QSub => POk ts | _ => unexpected_in_call posix o first ts end
                | _ => (* TRedir TIoRedir *)
-                   match do_redirect o ts with
-                   | POk r' => call_loop posix f o q first r'
-                   | e => e
-                   end
+                   bind (do_redirect o ts) (fun r' => call_loop posix f o q first r')
                end
       end
   end.
@@ -217,9 +214,6 @@ Fixpoint pats_loop (fuel : nat) (o : nat) (prev : nat) (ts : list token) : pres 
              end
       end
   end.
-
-Definition bind {A B} (x : pres A) (k : A -> pres B) : pres B :=
-  match x with POk a => k a | PErr c p i => PErr c p i | PFuel => PFuel end.
 
 (* wordIter + the optional `in` list, for the tokens after `for` *)
 Definition word_iter (fuel : nat) (o : nat) (fpos : nat) (r : list token) : pres (list token) :=
@@ -276,12 +270,11 @@ Section Parser.
                 else match ts1 with
                      | [] => POk ([], any)
                      | t :: _ =>
-                         match get_stmt f (S o) q true false ts1 with
-                         | POk None => perr o ts1 (invalid_start_code t) (length ts1)
-                         | POk (Some (r, semi)) => stmts f o q stops semi true r
-                         | PErr c p i => PErr c p i
-                         | PFuel => PFuel
-                         end
+                         bind (get_stmt f (S o) q true false ts1) (fun v =>
+                         match v with
+                         | None => perr o ts1 (invalid_start_code t) (length ts1)
+                         | Some (r, semi) => stmts f o q stops semi true r
+                         end)
                      end
             end
         end
@@ -324,12 +317,11 @@ Section Parser.
             if binCmd then POk (Some (ts, false))
             else
               let r1 := got_newl r in
-              match get_stmt f o q false true r1 with
-              | POk None => perr o r1 EAfterOp (length ts)
-              | POk (Some (r2, _)) => and_or f o q readEnd binCmd r2
-              | PErr c p i => PErr c p i
-              | PFuel => PFuel
-              end
+              bind (get_stmt f o q false true r1) (fun v =>
+              match v with
+              | None => perr o r1 EAfterOp (length ts)
+              | Some (r2, _) => and_or f o q readEnd binCmd r2
+              end)
         | _ =>
             if readEnd then
               match ts with
@@ -408,12 +400,11 @@ Section Parser.
             if binCmd then POk (Some ts)
             else
               let r1 := got_newl r in
-              match stmt_pipe f o q false true (length r1) r1 with
-              | POk None => perr o r1 EAfterOp (length ts)
-              | POk (Some r2) => pipe_loop f o q binCmd r2
-              | PErr c p i => PErr c p i
-              | PFuel => PFuel
-              end
+              bind (stmt_pipe f o q false true (length r1) r1) (fun v =>
+              match v with
+              | None => perr o r1 EAfterOp (length ts)
+              | Some r2 => pipe_loop f o q binCmd r2
+              end)
         | _ => POk (Some ts)
         end
     end
@@ -427,11 +418,8 @@ Section Parser.
         match ts with
         | TSemi :: r => perr o r EFollowStmts lpos
         | _ =>
-            match stmts f o q stops true false ts with
-            | POk (r, any) => if any then POk r else perr o r EFollowStmts lpos
-            | PErr c p i => PErr c p i
-            | PFuel => PFuel
-            end
+            bind (stmts f o q stops true false ts) (fun v =>
+            let '(r, any) := v in if any then POk r else perr o r EFollowStmts lpos)
         end
     end
 
@@ -590,15 +578,12 @@ Section Parser.
             let ts1 := match ts with TLparen :: r => r | _ => ts end in
             let prev1 := match ts with TLparen :: _ => length ts | _ => prev end in
             bind (pats_loop fuel o prev1 ts1) (fun r =>
-            match stmts f o QCase [TEsac] true false (tl r) with
-            | POk (r2, _) =>
-                match r2 with
-                | TDSemi :: r3 => case_items f o (length r2) (got_newl r3)
-                | _ => POk r2
-                end
-            | PErr c p i => PErr c p i
-            | PFuel => PFuel
-            end)
+            bind (stmts f o QCase [TEsac] true false (tl r)) (fun v =>
+            let r2 := fst v in
+            match r2 with
+            | TDSemi :: r3 => case_items f o (length r2) (got_newl r3)
+            | _ => POk r2
+            end))
         end
     end
 
@@ -608,12 +593,11 @@ Section Parser.
     | O => PFuel
     | S f =>
         let r := got_newl ts in
-        match get_stmt f o q false false r with
-        | POk None => perr o r EFuncBody npos
-        | POk (Some (r2, _)) => POk r2
-        | PErr c p i => PErr c p i
-        | PFuel => PFuel
-        end
+        bind (get_stmt f o q false false r) (fun v =>
+        match v with
+        | None => perr o r EFuncBody npos
+        | Some (r2, _) => POk r2
+        end)
     end.
 End Parser.
 
